@@ -54,6 +54,11 @@ CLAIMS = {
             'WeightedRotation bodies are compared as normal forms; the Const accessors are enumerated over an index window. Proof level applies to the '
             'kernel tables and factor rules; the WeightedRotation and accessor rules are structural necessary conditions.',
             'static analysis: abstract interpretation into trigonometric-polynomial tables; product-word matrix domain with BLAS callee summaries; AST normal-form comparison'),
+    'C07': ('other',
+            'Structural necessary conditions only (the accuracy bound is numerical and declined): Pade tables vs the closed formula; U/V assembly on a matrix-polynomial domain for every order and several scaling exponents '
+            '(all comparison outcomes on the opaque norm estimates explored as path choices); solve_P_Q solves (V-U)X=(V+U) column-wise; thresholds not above the published theta_m; squaring loop parity s=0..6; '
+            'every thread-local scratch matrix defined before read after reset; helper kernels; diagonal shortcut; estimator guards for n=2..6 at all call sites; UTransform(v,scale) sandwich.',
+            'static analysis: abstract interpretation on a matrix-polynomial domain with callee summaries for BLAS/LU; must-define-before-use; constant-table and threshold-inequality rules'),
     'C08': ('proof',
             'Every lifecycle function (constructors, destructor, copy/move assignment, assignProxy<W,P> for 3 wrappers x 9 proxies, proxy constructors, '
             'SetBackingStore, make_aligned, factories, cache helpers) is abstractly interpreted from every abstract entry state (empty / self-owned / externally backed, '
